@@ -45,6 +45,17 @@ def mk_array(shape, flat):
     return vals
 
 
+def scribble(a):
+    """Overwrite a returned array in place after it has been recorded: a result that aliases the
+    source (or any internal state) then shows up in the source-unchanged check."""
+    try:
+        np.ma.getdata(a)[...] = -987654
+        if np.ma.isMA(a) and a.mask is not np.ma.nomask:
+            a.mask[...] = False
+    except Exception:
+        pass
+
+
 def obs_array(a):
     a = np.ma.asanyarray(a)
     mask = np.ma.getmaskarray(a)
@@ -104,7 +115,10 @@ def do_get(cases, scratch):
                 idx = idx[0]
             try:
                 e = d[idx]
-                row["ok"] = obs_array(e.array)
+                ea = e.array
+                row["ok"] = obs_array(ea)
+                scribble(ea)
+                row["ok_again"] = obs_array(e.array) == row["ok"]
                 row["compressed_after"] = d.get_compression_type() if c.get("src") == "ragged" else None
             except Exception as ex:
                 row["err"] = errclass(ex)
@@ -155,8 +169,11 @@ def do_bounds(cases, scratch):
                 idx = idx[0]
             try:
                 y = x[idx]
-                row["data"] = obs_array(y.data.array)
-                row["bounds"] = obs_array(y.bounds.data.array)
+                ya, yb = y.data.array, y.bounds.data.array
+                row["data"] = obs_array(ya)
+                row["bounds"] = obs_array(yb)
+                scribble(ya)
+                scribble(yb)
             except Exception as ex:
                 row["err"] = errclass(ex)
             row["source_unchanged"] = bool((x.data.array == data).all() and (x.bounds.data.array == bnds).all())
